@@ -1,3 +1,4 @@
 import Proofs.Duration
 import Proofs.Timeline
+import Proofs.Limits
 import Proofs.SeqInv
